@@ -6,20 +6,27 @@ cd /verif
 export CARGO_NET_OFFLINE=true
 mkdir -p .cache/work
 python3 tools/translate.py
-for t in tools/translate_c*.py; do [ -f "$t" ] && python3 "$t" || true; done
+for t in tools/translate_c*.py; do
+  case "$t" in
+    tools/translate_c16.py) python3 "$t" --tables-only || true ;;   # certificates need the driver: second pass below
+    *) python3 "$t" || true ;;
+  esac
+done
 TARGETS=$(python3 - <<'PY'
 import json, os
 m = json.load(open('/verif/MANIFEST.json'))
 ts = ['moyo_model']
 for c in m['checks']:
     pid = c['property_id']
-    if os.path.exists(f'/verif/lean/Moyo/Props/{pid}.lean'):
-        ts.append(f'Moyo.Props.{pid}')
+    for f in sorted(os.listdir('/verif/lean/Moyo/Props')):
+        if f.startswith(pid) and f.endswith('.lean'):
+            ts.append('Moyo.Props.' + f[:-5])
 print(' '.join(ts))
 PY
 )
 # the driver must build; a theorem module that fails to build is reported by its own check, not here
 (cd lean && lake build moyo_model)
+[ -f tools/translate_c16.py ] && (python3 tools/translate_c16.py || true)
 (cd lean && lake build $TARGETS) || echo "setup: some theorem modules failed to build (their checks will report it)"
 (cd harness && cargo build)
 echo "setup ok"
